@@ -102,6 +102,25 @@ def build(script, cfg):
         e = h["edns"]
         m.use_edns(e[1], e[2], e[3], options=c3.make_options(e[4]), pad=cfg["pad"])
         m.set_rcode(h["rcode"])
+    keyring = None
+    if cfg["key"]:
+        kn = c3.mkname(cfg["key"], False)
+        alg = ".".join(bytes(l).decode() for l in cfg.get("alg", ALG_DEFAULT)) + "."
+        keyring = dns.tsig.Key(kn, KEY_SECRET, alg)
+        m.use_tsig(keyring, tsig_error=cfg.get("terr", 0), other_data=bytes(cfg.get("other", [])))
+    if cfg.get("src") == "parsed":
+        # forwarder style: the message to render is one PARSED from (signed) wire, not re-signed; its EDNS/padding
+        # configuration is applied to the parsed object
+        dns.message.time = FixedTime
+        try:
+            w0 = m.to_wire(max_size=65535, want_shuffle=False)
+            m = dns.message.from_wire(w0, keyring=keyring)
+        finally:
+            dns.message.time = __import__("time")
+        if h["edns"][0] == "edns":
+            e = h["edns"]
+            m.use_edns(e[1], e[2], e[3], options=c3.make_options(e[4]), pad=cfg["pad"])
+            m.set_rcode(h["rcode"])
     index = {}
     for i, s in enumerate(script[1:], start=1):
         if s["op"] == "q":
@@ -112,12 +131,6 @@ def build(script, cfg):
         for rs in m.sections[sec]:
             index[id(rs)] = items[k]
             k += 1
-    keyring = None
-    if cfg["key"]:
-        kn = c3.mkname(cfg["key"], False)
-        alg = ".".join(bytes(l).decode() for l in cfg.get("alg", ALG_DEFAULT)) + "."
-        keyring = dns.tsig.Key(kn, KEY_SECRET, alg)
-        m.use_tsig(keyring, tsig_error=cfg.get("terr", 0), other_data=bytes(cfg.get("other", [])))
     return m, index, keyring
 
 
@@ -150,7 +163,7 @@ def render(script, cfg, tid, built=None):
         if ev_done["res"] == "ok":
             try:
                 # a TSIG carrying an error (BADTIME ...) is not validated by the projection parse
-                p = dns.message.from_wire(wire, keyring=keyring if not cfg.get("terr") else False)
+                p = dns.message.from_wire(wire, keyring=keyring if not (cfg.get("terr") or cfg.get("src") == "parsed") else False)
                 ev_done["parsed"] = {"ok": True, "len": len(wire), "opt": p.opt is not None, "tsig": p.tsig is not None,
                                      "flags": int(p.flags),
                                      "counts": [p.section_count(i) for i in range(4)]}
